@@ -7,7 +7,10 @@ highest height whose best-chain block is in P (nothing when the tip is processed
 each block once, with its true height; it may stop early only because the script made it
 (outstanding request, interrupt, block left the best chain, source outage). A block that left the
 best chain while outstanding must end the round at the next poll; the reader must never stall or
-crash; a trigger during a round must be followed by another round."""
+crash; a trigger during a round must be followed by another round.
+When the header repository changes between two of the round's own reads (scripted `inject=`), the
+reference is unchanged: the round is judged against the best chain at its first read (whose tip the
+round's LastHash call returned), every requested hash must carry ITS OWN height."""
 import json
 
 import brv
@@ -257,6 +260,12 @@ def monitor(script):
             pending = o.get("pend")
             if over:
                 rnd = None
+            if "chain2" in a:
+                # the repository changed between two of the round's own reads (inject=): the round
+                # above was judged against the chain whose tip its LastHash call returned; later
+                # rounds see the new one
+                chain = _ilist(a["chain2"])
+                window = int(a.get("window2", 0))
         elif verb in ("startup", "trigger"):
             thread = True
             if rnd is None:
